@@ -46,6 +46,9 @@ MODULES = [
     "neuroml/hdf5/NeuroMLHdf5Parser.py",
     "neuroml/hdf5/NeuroMLXMLParser.py",
     "neuroml/nml/nml.py",
+    "neuroml/nml/generatedssupersuper.py",
+    "neuroml/nml/generatedscollector.py",
+    "neuroml/build_time_validation.py",
 ]
 # every function/method of these is an entry point; of nml.py only the module-level functions are (plus one pseudo
 # entry for all methods), of utils/arraymorph nothing is (they are only followed transitively)
@@ -67,6 +70,9 @@ DOTTED = {  # dotted import name -> module path
     "neuroml.hdf5.NeuroMLHdf5Parser": "neuroml/hdf5/NeuroMLHdf5Parser.py",
     "neuroml.hdf5.NeuroMLXMLParser": "neuroml/hdf5/NeuroMLXMLParser.py",
     "neuroml.nml.nml": NML, "neuroml": NML,   # `from .nml.nml import *` in neuroml/__init__.py
+    "neuroml.nml.generatedssupersuper": "neuroml/nml/generatedssupersuper.py",
+    "neuroml.nml.generatedscollector": "neuroml/nml/generatedscollector.py",
+    "neuroml.build_time_validation": "neuroml/build_time_validation.py",
 }
 
 MUTABLE_CTORS = {"list", "dict", "set", "bytearray", "defaultdict", "OrderedDict", "deque", "Counter", "array",
@@ -563,7 +569,17 @@ class Builder:
             return ([vn] if vn else []), "G"
         ck = self.class_of_expr(recv)
         if ck is not None:
-            vn = find_attr(w, ck, e.attr)
+            attr = e.attr
+            if attr.startswith("__") and not attr.endswith("__") and self.f.cls:
+                attr = "_%s%s" % (self.f.cls[1].split(".")[-1].lstrip("_"), attr)     # private name mangling
+            vn = find_attr(w, ck, attr) or find_attr(w, ck, e.attr)
+            if vn is None and isinstance(e.ctx, ast.Store):
+                # an attribute created on the class object at run time (e.g. a cache): a class-level variable
+                vn = "%s::%s.%s" % (ck[0], ck[1], attr)
+                w.add_var(vn, kind="classAttr", mut="unk", mod=ck[0], cls=ck, attr=attr, line=e.lineno, flat=False,
+                          dynamic=True)
+                w.classes[ck]["attrs"][attr] = vn
+                w.attr_by_name.setdefault(attr, []).append(vn)
             return ([vn] if vn else []), "C"
         if isinstance(recv, ast.Name) and recv.id == self.self_name and self.f.cls and self.f.kind == "method":
             out = []
@@ -880,7 +896,7 @@ class Builder:
                     type(t)(**{k: getattr(t, k) for k in t._fields if k != "ctx"}, ctx=ast.Load()), t)
                 out.append(E(load))
                 out += self.mut({x for x in self.region(load) if not x[2] or True})   # in-place operator
-            out.append(self.store(t, self.region(s.value)))
+            out.append(self.store(t, deepen(self.region(s.value))))    # `x += v` takes v's elements, not v
             return ("seq", out)
         if isinstance(s, ast.Return):
             out = []
@@ -974,8 +990,15 @@ class Builder:
             out = [self.expr(t.value), self.expr(t.slice)]
             out += self.mut(self.region(t.value))
             d = dotted(t.value.func) if isinstance(t.value, ast.Call) else None
-            if d in ("globals", "vars", "locals"):
-                out.append(self.rw(w.opaque(self.f.fid, "%s()[..]=" % d, t.lineno)))
+            if d == "globals":
+                out.append(self.rw(w.opaque(self.f.fid, "globals()[..]=", t.lineno)))
+            if d == "vars" and t.value.args:
+                a0 = t.value.args[0]      # vars(obj)[name] = v  is  setattr(obj, name, v)
+                if self.class_of_expr(a0) is not None or self.module_of_expr(a0) is not None:
+                    out.append(self.rw(w.opaque(self.f.fid, "vars(class-or-module)[..]=", t.lineno)))
+                out += self.mut(self.region(a0))
+                if isinstance(a0, ast.Name) and a0.id == self.self_name:
+                    self.f.mutates_self = True
             if isinstance(t.value, ast.Attribute) and t.value.attr == "__dict__" and \
                     (self.class_of_expr(t.value.value) or self.module_of_expr(t.value.value)):
                 out.append(self.rw(w.opaque(self.f.fid, "class.__dict__[..]=", t.lineno)))
@@ -1337,13 +1360,14 @@ def analyse(repo):
     for rounds_b in range(1, 5):
         w.builders = {}
         new_returns = {}
+        nvars = len(w.vars) if rounds_b > 1 else -1
         for fid, f in w.funcs.items():
             f.mutates_self = False
             b = Builder(w, f)
             f.ir = b.build()
             w.builders[fid] = b
             new_returns[fid] = b.returns
-        stable = new_returns == w.returns
+        stable = new_returns == w.returns and nvars == len(w.vars)
         w.returns = new_returns
         if stable:
             break
